@@ -4,7 +4,7 @@ CONSTANTS w1, w2, s1, s2
 \* submitter s1 = a photon thread (PhotonContext awaiter = semaphore), s2 = a plain OS thread (StdContext awaiter = promise)
 C(t, c) == [op |-> "call", t |-> t, ctx |-> c]
 A(t) == [op |-> "async", t |-> t, ctx |-> "none"]
-\* 3 tasks: burst of 3 > ring of 2; the call is first, in the middle or last
+\* 3 tasks: a burst of 3 > ring of 2
 Prog3a == (s1 :> <<C(1, "photon"), A(2)>>) @@ (s2 :> <<A(3)>>)
 Prog3b == (s1 :> <<A(1), A(2)>>) @@ (s2 :> <<C(3, "std")>>)
 \* 4 tasks
@@ -12,5 +12,15 @@ Prog4a == (s1 :> <<C(1, "photon"), A(2)>>) @@ (s2 :> <<A(3), C(4, "std")>>)
 Prog4b == (s1 :> <<A(1), A(2), A(3)>>) @@ (s2 :> <<C(4, "std")>>)
 \* tiny (liveness)
 Prog2 == (s1 :> <<C(1, "photon")>>) @@ (s2 :> <<A(2)>>)
+Modes == {"inline", "thread", "pooled"}
+CfgQuick == {MkCfg(m, "none", Prog3b) : m \in Modes}
+CfgQuickA == {MkCfg(m, "none", Prog3a) : m \in Modes}
+CfgThorough4b == {MkCfg(m, "none", Prog4b) : m \in Modes}
+CfgThorough4a == {MkCfg(m, "none", Prog4a) : m \in Modes}
+CfgLive == {MkCfg(m, "none", Prog2) : m \in Modes}
+\* deliberately broken variants; each must violate the property named in checks/c08.py
+CfgWitness == {MkCfg("thread", "late_copy", Prog2), MkCfg("thread", "no_yield_to", Prog2), MkCfg("pooled", "no_yield_to", Prog2),
+               MkCfg("thread", "no_drain", Prog2), MkCfg("pooled", "no_drain", Prog2), MkCfg("thread", "resume_early", Prog2),
+               MkCfg("inline", "resume_early", Prog2), MkCfg("inline", "marker_short", Prog2), MkCfg("inline", "no_delete", Prog2)}
 Sym == Permutations({w1, w2})
 ====
